@@ -43,10 +43,26 @@ fn answers<C: CellType>(src: &str, tag: &str) -> Vec<Value> {
     out
 }
 
+/// The in-place interpreter does not parse; it must merely never panic, whatever the text.
+fn inplace_answer(src: &str) -> Value {
+    use hpbf::{exec::{Executable, InplaceInterpreter}, runtime::Context};
+    let r = catch_unwind(AssertUnwindSafe(|| {
+        let mut cxt = Context::<u8>::new(Some(Box::new(&b"ab"[..])), Some(Box::new(std::io::sink())));
+        cxt.budget = 3000;
+        InplaceInterpreter::<u8>::create(src, 0).and_then(|x| x.execute_limited(&mut cxt)).map(|_| ())
+    }));
+    match r {
+        Ok(Ok(())) => json!(["inplace", "ran", 0]),
+        Ok(Err(_)) => json!(["inplace", "error-result", 0]),
+        Err(_) => json!(["inplace", "panic", 0]),
+    }
+}
+
 /// `{"op":"parse","id","src"}`
 pub fn op_parse(req: &Value) {
     let src = req["src"].as_str().unwrap_or("");
     let mut a = answers::<u8>(src, "u8");
     a.extend(answers::<u64>(src, "u64"));
+    a.push(inplace_answer(src));
     println!("{}", json!({"id": req["id"], "answers": a}));
 }
